@@ -18,9 +18,10 @@ structure UserRefsOk (c : Cmd) : Prop where
 theorem buildArg_requires (a : Arg) : (buildArg a).requires = a.requires := rfl
 theorem buildArg_isPositional (a : Arg) : (buildArg a).isPositional = a.isPositional := rfl
 
-theorem cmdLevelArg_more (st : Settings) (a : Arg) :
+theorem cmdLevelArg_more (st : LevelSwitches) (a : Arg) :
     (cmdLevelArg st a).requires = a.requires ∧ (cmdLevelArg st a).isPositional = a.isPositional := by
   unfold cmdLevelArg
+  simp only
   split <;> simp [Arg.isPositional]
 
 theorem addToGroups_requires (argId : Id) : ∀ (gl : List Id) (groups : List Group),
